@@ -267,11 +267,11 @@ func (c *concCase) runPhase(p int, kind string, rng *mrand.Rand) bool {
 					rec.Vers = [3]int{verBad, verBad, verBad}
 				} else {
 					// the RRSet shapes never change in a concurrent case; whether the version ever existed is judged later
-					rec.Vers, rec.problem = observe(name, res, func(v int) zoneSpec {
+					rec.Vers, rec.problem = observe(name, res, func(v int) (string, *[3]rrset) {
 						if v < 0 {
-							return nil
+							return name, nil
 						}
-						return c.spec
+						return name, c.spec[name]
 					})
 					rec.used[0], rec.used[1], rec.used[2] = useResult(res, lrng)
 				}
